@@ -407,6 +407,35 @@ def _store_shape(P, R, rec):
             arg = cm.sym_operand(c.args[-1])
             if "last_mut" in recv and mentions_call(arg, "std::vec::Vec::pop"):
                 sinks.append(c)
+    # the enclosing frame's own entries hold the values its keys had when IT began: commit may only append to it.
+    # (duplicates appended after the parent's entry are harmless because rollback replays in reverse, so the earliest
+    # entry per key is restored last; removing, replacing or prepending without the key-absent guard loses that value)
+    bad_parent = []
+    n_parent_ops = 0
+    for c in cm.calls():
+        if c.bb not in cm.normal_blocks() or not c.args or c.args[0][0] not in "cm":
+            continue
+        recv = fmt_sym(cm.sym_operand(c.args[0]))
+        if "last_mut" not in recv or "undo_frames" not in recv:
+            continue
+        rty = A.place_type(cm, c.args[0][1]) or ""
+        nm = c.name.rsplit("::", 1)[-1]
+        if not rty.replace("&mut ", "&mut").startswith("&mutstd::vec::Vec<") or nm in ("deref", "deref_mut", "iter", "len", "is_empty", "as_slice", "contains", "last", "first", "get", "unwrap", "as_mut", "as_deref_mut", "branch"):
+            continue
+        n_parent_ops += 1
+        if nm in ("push", "extend", "append", "extend_from_slice", "push_back"):
+            continue
+        guards = [(fmt_sym(g), pol) for (g, pol) in A.guard_conditions(cm, c.bb)]
+        absent = any(("::any(" in g or "contains" in g) and "last_mut" in g and pol is False for (g, pol) in guards)
+        if nm == "insert" and absent:
+            continue
+        bad_parent.append((c, nm))
+    for c, nm in bad_parent:
+        R.violate("d", "commit:parent-%s" % nm,
+                  "commit_undo_frame calls %s on the enclosing frame: entries of the enclosing frame record the values its keys had when it began and must survive a nested commit (begin, set k, begin, set k, commit, rollback would restore the intermediate value of k)" % nm,
+                  cm, c.line)
+    if sinks and not bad_parent:
+        R.hold("d", "commit only appends to the enclosing frame (%d mutating calls on it, all appends or key-absent-guarded)" % n_parent_ops, fn=cm)
     if sinks:
         R.hold("d", "commit transfers the popped frame's entries to the parent frame", fn=cm, line=sinks[0].line)
     else:
